@@ -13,11 +13,32 @@ weight of this property is in the correspondence: the harness compares the real
 ConditionalDistribution (every shipped family × every fixed/dependent partition × random
 dependence functions × scalar/vector/broadcast `given`) with *constructed* template instances.
 
+WHAT THE DRIVER RUNS. The `cond` op (Drv/C08.lean) evaluates `ratCondVec m spec xs gs` and the
+shared leaf functions `cdfOf`/`qOf`/`pdfOf` of Drv/Hier.lean evaluate `ratCond m spec x g` for a
+conditioned dimension; both are `condEvalVec` / `condEval` / `paramValues` of `Model/Cond.lean`
+applied to the template `ratTemplate m` (the `RatDist` double called with keyword arguments) and the
+specs `ratParSpecs spec` (token `c a` = FIXED parameter, anything else = dependence function). So the
+generic theorems below are about executed code, and the `ratCond*` theorems are the bridge to the
+closed form `m (paramAt s (some g)) (paramAt l (some g)) x` used by the theorems of C01/C02/C06/C07.
+
 Clause → theorem
-  template at the dependence values, parameter order kept        cond_eq_template, paramValues_names
-  dependent parameter = its function at g; fixed = fixed, ∀ g    paramValues_dep, fixed_param_const
-  vectorised = pointwise (equal lengths; scalar g broadcast)     vector_eq_pointwise, broadcast_eq_pointwise
-  chained dependence function(s) evaluated at the same g         chained_same_given, ratio_same_given
+  template at the dependence values, parameter order kept        ratCond_eq_template_at_dependence_values,
+                                                                 ratParamValues, paramValues_names
+                                                                 (cond_eq_template_unfold: definition only)
+  dependent parameter = its function at g; fixed = fixed, ∀ g    paramValues_dep, fixed_param_const,
+                                                                 fixed_param_indep_of_given, ratCond_fixed_s,
+                                                                 ratCond_fixed_l
+  vectorised = pointwise (equal lengths; scalar g broadcast)     ratCondVec_pointwise, ratCondVec_eq_one_at_a_time,
+                                                                 ratCondVec_broadcast, ratCondVec_length,
+                                                                 ratCondVec_all_some (generic: vector_eq_pointwise,
+                                                                 broadcast_eq_pointwise, vector_length — these
+                                                                 three are facts of `List.zipWith`, true for any
+                                                                 pointwise function; the content is that the
+                                                                 driver's loop IS this `zipWith`)
+  chained dependence function(s) evaluated at the same g         evalLog_value, inner_calls_same_given,
+                                                                 inner_calls_all (every depth, by induction);
+                                                                 chained_same_given_unfold, ratio_same_given_unfold
+                                                                 (one-step unfoldings of `DepFn.eval`)
   keyword-bound dependence functions: call succeeds iff the bound
   parameters are the trailing ones, and then every free parameter
   receives its own value                                         bindCall_ok_iff_suffix, bindCall_positions
@@ -29,7 +50,7 @@ Clause → theorem
   otherwise an error                                             callMode_stored_iff, callMode_explicit_iff,
                                                                  callMode_error_iff
   one dependence function used as a parameter AND inside another
-  parameter's dependence function: one value for both            shared_inner_same_value
+  parameter's dependence function: one value for both            shared_inner_same_value, ratCond_shared_inner
   sampling: size handed to the template's sampler is (n, k) for a
   vector `given` of length k (every parameter broadcast first),
   n for a scalar `given` with scalar dependence values           cond_sample_shape_vector, cond_sample_shape_scalar
@@ -46,8 +67,9 @@ open VirVerif
 
 variable {α β : Type} [Add α] [Mul α] [Div α] [OfNat α 1]
 
-/-- **template at the dependence values** -/
-theorem cond_eq_template (template : List (String × α) → α → β) (specs : List (String × ParSpec α))
+/-- definition of `condEval`, unfolded (no content beyond the definition; the substantive statement
+for the executed double is `ratCond_eq_template_at_dependence_values`) -/
+theorem cond_eq_template_unfold (template : List (String × α) → α → β) (specs : List (String × ParSpec α))
     (x g : α) : condEval template specs x g = template (paramValues specs g) x := rfl
 
 /-- the keyword arguments are the template's parameters, in template order -/
@@ -64,11 +86,90 @@ theorem paramValues_dep (specs : List (String × ParSpec α)) (g : α) (k : Nat)
     (paramValues specs g)[k]? = some (name, d.eval g) := by
   simp [paramValues, h]
 
-/-- **a fixed parameter has the same value for every conditioning value** -/
+/-- **a fixed parameter has its fixed value at every conditioning value** -/
 theorem fixed_param_const (specs : List (String × ParSpec α)) (k : Nat) (name : String) (v : α)
-    (h : specs[k]? = some (name, .fixed v)) (g g' : α) :
-    (paramValues specs g)[k]? = some (name, v) ∧ (paramValues specs g')[k]? = some (name, v) := by
+    (h : specs[k]? = some (name, .fixed v)) (g : α) :
+    (paramValues specs g)[k]? = some (name, v) := by
   simp [paramValues, h]
+
+/-- … hence the same keyword argument for any two conditioning values -/
+theorem fixed_param_indep_of_given (specs : List (String × ParSpec α)) (k : Nat) (name : String) (v : α)
+    (h : specs[k]? = some (name, .fixed v)) (g g' : α) :
+    (paramValues specs g)[k]? = (paramValues specs g')[k]? := by
+  rw [fixed_param_const specs k name v h g, fixed_param_const specs k name v h g']
+
+/-! ### the executed conditional double (bridge) -/
+
+/-- the keyword arguments the conditional rational double hands to its template at `g`: `s` and `l`,
+in this order, each its description's value at `g` (a `c a` description is a fixed parameter: `a`) -/
+theorem ratParamValues (spec : RatSpec α) (g : α) :
+    paramValues (ratParSpecs spec) g = [("s", spec.s.eval g), ("l", spec.l.eval g)] := by
+  obtain ⟨s, l⟩ := spec
+  cases s <;> cases l <;> rfl
+
+/-- **template at the dependence values — for the function the driver runs.** `ratCond` (= `condEval`
+on the `RatDist` template) never fails and is the template's method `m` with `s`, `l` set to their
+dependence values at `g`: exactly the closed form `m (paramAt s (some g)) (paramAt l (some g)) x`
+that `Drv/Hier.lean` used to compute directly and that the `Q`/`F`/`f` of C01, C02, C06, C07 denote. -/
+theorem ratCond_eq_template_at_dependence_values (m : α → α → α → β) (spec : RatSpec α) (x g : α) :
+    ratCond m spec x g = some (m (paramAt spec.s (some g)) (paramAt spec.l (some g)) x) := by
+  unfold ratCond condEval
+  rw [ratParamValues]
+  rfl
+
+/-- a fixed `s` (description `c a`) is `a` at every conditioning value -/
+theorem ratCond_fixed_s (m : α → α → α → β) (a : α) (l : DepFn α) (x g : α) :
+    ratCond m ⟨.const a, l⟩ x g = some (m a (l.eval g) x) :=
+  ratCond_eq_template_at_dependence_values m ⟨.const a, l⟩ x g
+
+/-- a fixed `l` is `a` at every conditioning value -/
+theorem ratCond_fixed_l (m : α → α → α → β) (a : α) (s : DepFn α) (x g : α) :
+    ratCond m ⟨s, .const a⟩ x g = some (m (s.eval g) a x) :=
+  ratCond_eq_template_at_dependence_values m ⟨s, .const a⟩ x g
+
+/-- **the driver's vectorised call, pair by pair**: entry `j` is the scalar call at `(x_j, g_j)` -/
+theorem ratCondVec_pointwise (m : α → α → α → β) (spec : RatSpec α) (xs gs : List α) (j : Nat)
+    (hx : j < xs.length) (hg : j < gs.length) :
+    (ratCondVec m spec xs gs)[j]? = some (ratCond m spec xs[j] gs[j]) := by
+  simp [ratCondVec, ratCond, condEvalVec, List.getElem?_zipWith, List.getElem?_eq_getElem hx,
+    List.getElem?_eq_getElem hg]
+
+/-- **vectorised = one at a time, in closed form**: the whole answer of the `cond` op is the list of
+template values at the dependence values of each pair -/
+theorem ratCondVec_eq_one_at_a_time (m : α → α → α → β) (spec : RatSpec α) (xs gs : List α) :
+    ratCondVec m spec xs gs =
+      List.zipWith (fun x g => some (m (paramAt spec.s (some g)) (paramAt spec.l (some g)) x)) xs gs := by
+  unfold ratCondVec condEvalVec
+  congr 1
+  funext x g
+  exact ratCond_eq_template_at_dependence_values m spec x g
+
+/-- no entry of the vectorised answer is a failed template call (the driver's `getD nan` is never
+taken) -/
+theorem ratCondVec_all_some (m : α → α → α → β) (spec : RatSpec α) (xs gs : List α) :
+    ∀ v ∈ ratCondVec m spec xs gs, v.isSome = true := by
+  rw [ratCondVec_eq_one_at_a_time]
+  intro v hv
+  obtain ⟨i, h1, h2⟩ := List.getElem_of_mem hv
+  rw [List.getElem_zipWith] at h2
+  rw [← h2]; rfl
+
+/-- a scalar `given` broadcast over a vector of `x` -/
+theorem ratCondVec_broadcast (m : α → α → α → β) (spec : RatSpec α) (xs : List α) (g : α) :
+    ratCondVec m spec xs (List.replicate xs.length g) = xs.map fun x => ratCond m spec x g := by
+  unfold ratCondVec condEvalVec ratCond
+  induction xs with
+  | nil => rfl
+  | cons x xs ih =>
+    simp only [List.length_cons, List.replicate_succ, List.zipWith_cons_cons, List.map_cons] at ih ⊢
+    rw [ih]
+
+/-- one value per pair -/
+theorem ratCondVec_length (m : α → α → α → β) (spec : RatSpec α) (xs gs : List α)
+    (h : xs.length = gs.length) : (ratCondVec m spec xs gs).length = xs.length := by
+  simp [ratCondVec, condEvalVec, h]
+
+/-! ### generic (any template, any specs) -/
 
 /-- **vectorised = pointwise** -/
 theorem vector_eq_pointwise (template : List (String × α) → α → β) (specs : List (String × ParSpec α))
@@ -91,14 +192,55 @@ theorem vector_length (template : List (String × α) → α → β) (specs : Li
     (condEvalVec template specs xs gs).length = xs.length := by
   simp [condEvalVec, h]
 
-/-- **a chained dependence function evaluates its inner function at the same g** -/
-theorem chained_same_given (a b : α) (d : DepFn α) (g : α) :
+/-- one-step unfolding of `DepFn.eval` (the function the driver runs) for a chained function -/
+theorem chained_same_given_unfold (a b : α) (d : DepFn α) (g : α) :
     (DepFn.chained a b d).eval g = (a + b * g) / d.eval g := rfl
 
-/-- … also with two dependence functions as parameters: both are evaluated at the same g, each in
-its own place -/
-theorem ratio_same_given (a : α) (n d : DepFn α) (g : α) :
+/-- one-step unfolding of `DepFn.eval` for a function with two inner dependence functions -/
+theorem ratio_same_given_unfold (a : α) (n d : DepFn α) (g : α) :
     (DepFn.ratio a n d).eval g = (a + n.eval g) / d.eval g := rfl
+
+/-- the instrumented evaluator computes the value of `DepFn.eval` (which the driver runs) … -/
+theorem evalLog_value (d : DepFn α) (g : α) : (d.evalLog g).1 = d.eval g := by
+  induction d with
+  | const a => rfl
+  | affine a b => rfl
+  | asym a b c => rfl
+  | chained a b d ih => simp only [DepFn.evalLog, DepFn.eval, ih]
+  | ratio a n d ihn ihd => simp only [DepFn.evalLog, DepFn.eval, ihn, ihd]
+
+/-- **… and every call it makes to an inner dependence function, at any depth of nesting, is at the
+same conditioning value `g`** -/
+theorem inner_calls_same_given (d : DepFn α) (g : α) : ∀ p ∈ (d.evalLog g).2, p.2 = g := by
+  induction d with
+  | const a => intro p hp; cases hp
+  | affine a b => intro p hp; cases hp
+  | asym a b c => intro p hp; cases hp
+  | chained a b d ih =>
+    intro p hp
+    simp only [DepFn.evalLog, List.mem_cons] at hp
+    rcases hp with rfl | hp
+    · rfl
+    · exact ih p hp
+  | ratio a n d ihn ihd =>
+    intro p hp
+    simp only [DepFn.evalLog, List.mem_cons, List.mem_append] at hp
+    rcases hp with (rfl | hp) | rfl | hp
+    · rfl
+    · exact ihn p hp
+    · rfl
+    · exact ihd p hp
+
+/-- the calls are exactly the inner functions (every strict sub-function, each once, in order): none
+is skipped -/
+theorem inner_calls_all (d : DepFn α) (g : α) : (d.evalLog g).2.map Prod.fst = d.inner := by
+  induction d with
+  | const a => rfl
+  | affine a b => rfl
+  | asym a b c => rfl
+  | chained a b d ih => simp only [DepFn.evalLog, DepFn.inner, List.map_cons, ih]
+  | ratio a n d ihn ihd =>
+    simp only [DepFn.evalLog, DepFn.inner, List.map_cons, List.map_append, ihn, ihd]
 
 /-! ### keyword binding -/
 
@@ -208,6 +350,12 @@ theorem shared_inner_same_value (specs : List (String × ParSpec α)) (g : α) (
   · simp [paramValues, h]
   · simp [paramValues, h', DepFn.eval]
 
+/-- the same for the executed double: `s` is the dependence function `d` and `l`'s chained function has
+`d` as inner function — the template is called with `s = v` and `l = (a + b g)/v` for ONE `v = d(g)` -/
+theorem ratCond_shared_inner (m : α → α → α → β) (a b : α) (d : DepFn α) (x g : α) :
+    ∃ v, v = d.eval g ∧ ratCond m ⟨d, .chained a b d⟩ x g = some (m v ((a + b * g) / v) x) :=
+  ⟨d.eval g, rfl, ratCond_eq_template_at_dependence_values m ⟨d, .chained a b d⟩ x g⟩
+
 /-! ### size handed to the template's sampler -/
 
 /-- **vector given**: `ConditionalDistribution.draw_sample(n, given)` with `k` conditioning values
@@ -245,6 +393,11 @@ example : bindCall ["a", "b", "d"] ["d"] =
 example : bindCall ["d", "a", "b"] ["d"] = .error "multipleValues" := by decide
 example : (paramValues [("s", ParSpec.dep (.affine 1 2)), ("l", .fixed 5)] (3 : Int)) = [("s", 7), ("l", 5)] := by
   decide
+example : ratCond (fun s l x => s * 100 + l * 10 + x) ⟨.affine 1 2, .const 5⟩ (4 : Int) 3 = some 754 := by decide
+example : ratCondVec (fun s l x => s * 100 + l * 10 + x) ⟨.affine 1 2, .const 5⟩ [4, 1] [3, (0 : Int)]
+    = [some 754, some 151] := by decide
+example : (DepFn.ratio (1 : Int) (.chained 6 0 (.affine 1 1)) (.affine 0 1)).evalLog 2 =
+    (1, [(.chained 6 0 (.affine 1 1), 2), (.affine 1 1, 2), (.affine 0 1, 2)]) := by rfl
 example : defaultParams [("a", some (2 : Int)), ("b", none)] = [("a", 2), ("b", 1)] := by decide
 example : callMode 2 0 0 = .stored ∧ callMode 2 1 1 = .explicit ∧ callMode 2 1 0 = .error ∧
     callMode 0 0 0 = .stored := by decide
